@@ -189,7 +189,6 @@ SPECS["C05"] = dict(
         H("core_h", "pb_first_notc", stubbing=True, timeout=900, mem_gb=16, symbolic="as above, rounds 1,2 above genesis", asserts="first commit delivers block 1 only (no genesis)"),
         H("core_h", "pb_gap3_notc", tier="thorough", stubbing=True, timeout=1200, mem_gb=16, symbolic="as pb_consec_notc; stored rounds 5,8 (gap of 3)", asserts="as pb_consec_notc (vote rule, commit rule, no round/high_qc change)"),
         H("core_h", "pb_gap_delivered_tc", tier="thorough", stubbing=True, timeout=1200, mem_gb=16, symbolic="as pb_consec_notc; stored rounds 5,7, b0 already delivered, proposal with TC", asserts="as pb_consec_notc (vote rule, commit rule, no round/high_qc change)"),
-        H("core_h", "pb_consec_behind_notc", tier="thorough", stubbing=True, timeout=1200, mem_gb=16, symbolic="as pb_consec_notc; stored rounds 5,6, node already in round 9", asserts="as pb_consec_notc (vote rule, commit rule, no round/high_qc change)"),
         H("core_h", "pb_first_gap_tc", tier="thorough", stubbing=True, timeout=1200, mem_gb=16, symbolic="as pb_consec_notc; stored rounds 1,3 above genesis, proposal with TC", asserts="as pb_consec_notc (vote rule, commit rule, no round/high_qc change)"),
         H("core2_h", "hv_single", stubbing=True, timeout=900, mem_gb=16, symbolic="vote round/author/validity, node state", asserts="a vote never causes a commit"),
         H("core2_h", "htc_valid", stubbing=True, timeout=900, mem_gb=16, symbolic="TC round, node state", asserts="a TC never causes a commit"),
